@@ -7,6 +7,7 @@ from types import SimpleNamespace as NS
 
 import core
 import fracexec
+import u4_util as U4
 from fracexec import frac_str, frac_list
 
 MODULE = 'UwgVerif.Props.C20'
@@ -145,6 +146,113 @@ def column_composition_msg(el, pavement, kroad, croad, tol=0):
     return None, nsoil
 
 
+# ------------------------------------------------------------------------------ circumstances (round 4)
+def float_columns_msgs(m, depths, temps=None):
+    """the C20 statement on the columns of a generated (double precision) model: road and rural column end at the first
+    ground-temperature depth at or below the refined pavement, their soil index points at that record, and slice by
+    slice they are pavement, then soil. -> [(oracle kind, message or None)]"""
+    out = []
+    droad = m.droad
+    nlay = max(int(math.ceil(droad / 0.05)), 1)
+    pavement = 0.05 * nlay if droad > 0.05 else droad
+    want_idx = next((i for i, d in enumerate(depths) if d > pavement - 1e-9), None)
+    for el, idxname in ((m.road, '_soilindex1'), (m.rural, '_soilindex2')):
+        idx = getattr(m, idxname, None)
+        tot = sum(el.layer_thickness_lst)
+        msg = None
+        if idx != want_idx:
+            msg = '%s: soil index %r; the first ground-temperature depth at or below the %.2f m pavement is record %r ' \
+                  'of %r' % (el.name, idx, pavement, want_idx, depths)
+        elif idx is not None:
+            gap = (depths[idx] - pavement) / 0.05
+            ok = depths[idx] - 1e-9 <= tot < depths[idx] + 0.05 - 1e-9
+            if abs(gap - round(gap)) < 1e-6:
+                ok = ok and abs(tot - depths[idx]) < 1e-9
+            if not ok:
+                msg = '%s: the column is %.3f m deep (%d slices), but the first ground-temperature depth at or below ' \
+                      'the %.2f m pavement is %s m (whose monthly temperature is imposed at the bottom)' % (
+                          el.name, tot, len(el.layer_thickness_lst), pavement, depths[idx])
+        out.append(('column-depth:%s' % el.name, msg))
+        cmsg, _n = column_composition_msg(el, 0.05 * nlay, m.kroad, m.croad, tol=1e-9)
+        out.append(('column-composition:%s' % el.name, cmsg))
+    return out
+
+
+def u4_install(sink, ctx):
+    """deep temperature at every step = header value of the chosen depth for the month in which the step starts"""
+    core.repo_python_path()
+    import uwg.simparam as SP
+    orig = SP.SimParam.update_date
+
+    def upd(self):
+        m = ctx.get('model')
+        if m is not None and self is m.simTime and m.nSoil >= 3 and ctx.get('want_idx') is not None:
+            want = ctx['temps'][ctx['want_idx']][self.month - 1] + 273.15
+            sink('deepTemp:month-%d' % self.month, None if m.forc.deepTemp == want else
+                 'step starting in month %d: deep boundary temperature %r; the %s m record of the rural file says %r for '
+                 'that month' % (self.month, m.forc.deepTemp, ctx['depths'][ctx['want_idx']], want))
+        return orig(self)
+    SP.SimParam.update_date = upd
+
+    def undo():
+        SP.SimParam.update_date = orig
+    return undo
+
+
+def u4_after_generate(m, spec, sink, ctx):
+    import s1_util as S
+    if 'depths' not in ctx:
+        ctx['depths'], ctx['temps'], _ = S.ground_of(S.load_epw(spec['epw']))
+    ctx['model'] = m
+    nlay = max(int(math.ceil(m.droad / 0.05)), 1)
+    pavement = 0.05 * nlay if m.droad > 0.05 else m.droad
+    ctx['want_idx'] = next((i for i, d in enumerate(ctx['depths']) if d > pavement - 1e-9), None)
+    for kind, msg in float_columns_msgs(m, ctx['depths']):
+        sink(kind, msg)
+
+
+U4_HOOKS = U4.Hooks(install=u4_install, after_generate=u4_after_generate,
+                    kernels=[('uwg.uwg', 'UWG', '_procmat', (0,))])
+
+
+def circumstance_ties(chk, quick):
+    import uwgutil as U
+    work = chk.work()
+    src = U.rp(U4.SGP[1])
+    deep = U4.ground_file(src, os.path.join(work, 'deep30.epw'), [0.5, 4.0, 30.0])
+    deep2 = U4.ground_file(src, os.path.join(work, 'deep40.epw'), [0.5, 2.0, 40.0], PROPS['filled'])
+    filled = U4.variant_file(src, os.path.join(work, 'filled.epw'), 'actual-year-header')
+    scen = [U4.make_spec('pavement 0.3 m (pads to the 0.5 m record), kroad 1.8, croad 1.7e6, 31 Jan + 2 days',
+                         month=1, day=31, nday=2, dtsim=300, droad=0.3, kroad=1.8, croad=1.7e6),
+            U4.make_spec('pavement 4.3 m, below the deepest of the three ground records (4 m): outside the domain, '
+                         'generate() refuses', month=1, day=1, nday=1, dtsim=300, droad=4.3),
+            U4.make_spec('ground records 0.5 / 4 / 30 m, pavement 4.5 m (pads to 30 m: 600 slices)', epw=deep,
+                         about={'GROUND TEMPERATURES depths': [0.5, 4.0, 30.0]}, month=6, day=30, nday=1, dtsim=300,
+                         droad=4.5, kroad=0.8, croad=2.2e6),
+            U4.make_spec('pavement 0.75 m (pads to the 2 m record), actual-year header', epw=filled, month=11, day=30,
+                         nday=2, dtsim=300, droad=0.75, kroad=2.5, croad=1.4e6)]
+    if not quick:
+        scen += [U4.make_spec('ground records 0.5 / 2 / 40 m (properties filled), pavement 2.2 m', epw=deep2,
+                              about={'GROUND TEMPERATURES depths': [0.5, 2.0, 40.0]}, month=3, day=1, nday=1, dtsim=300,
+                              droad=2.2, kroad=1.2, croad=1.9e6),
+                 U4.make_spec('pavement 1.5 m', month=8, day=31, nday=2, dtsim=300, droad=1.5, kroad=0.6, croad=2.4e6),
+                 U4.make_spec('pavement 2.3 m (pads to 4 m)', month=2, day=28, nday=2, dtsim=300, droad=2.3)]
+    counts, nbad, _ = U4.live_battery(
+        chk, 'C20', U4_HOOKS, scen, U4.others_default(work), 'ground-column oracle on live runs',
+        full=2 if quick else len(scen), required=('column-depth', 'column-composition', 'deepTemp'))
+    chk.direct('C20-circumstances(live runs: observers, logging, -O, CLI, other models, caller data)',
+               sum(counts.values()), len(scen),
+               'oracle = after generate() (and again after the model was rendered) road and rural column end at the '
+               'first ground-temperature depth at or below the refined pavement, the soil indices point at that record, '
+               'slice by slice pavement (kroad, croad) then soil; at every step the deep boundary temperature is that '
+               'record\'s value for the month in which the step starts. Kernel routines rendered around their calls: '
+               'UWG._procmat (the Element it is given is read-only). One scenario lies outside the domain (pavement below the '
+               'deepest of three ground records): every route and interpreter mode must refuse it alike. Scenarios incl. rural files '
+               'whose relevant ground record is 30 / 40 m deep: %s. %s' % ('; '.join(s_['label'] for s_ in scen),
+                                                                            U4.BATTERY_RULE),
+               mismatches=nbad, branches=counts)
+
+
 def run(chk):
     from props import epwheader
     chk.proof(MODULE, THEOREMS + epwheader.GROUND_THEOREMS, extra_modules=[epwheader.MODULE])
@@ -204,11 +312,21 @@ def run(chk):
     hdr_modes = {}
     depth_sets = [[F('0.5'), F(2), F(4)], [F('0.5')], [F('0.2'), F('1.0')], [F('0.1'), F('0.33'), F('0.7'), F('1.5')],
                   [F(2), F('0.5'), F(4)], [F('0.05'), F(3)]]
-    for i in range(ncol):
+    # ground records of any legal depth: the EPW format does not bound them (undisturbed-ground records at 10 .. 40 m
+    # exist); (depths, pavement) pairs whose first record at or below the pavement is deep
+    deep_sets = [([F('0.5'), F(4), F(30)], F('4.5')), ([F('0.5'), F(2), F(40)], F('2.2')), ([F(26)], F('0.3')),
+                 ([F('0.5'), F('25.05')], F('0.55')), ([F(10), F(20)], F('10.02')), ([F('12.5')], F('0.05'))]
+    ndeep = 2 if chk.tier == 'quick' else len(deep_sets)
+    deep_pick = rng.sample(deep_sets, ndeep)
+    deep_done = [0]
+    for i in range(ncol + ndeep):
         depths = depth_sets[i % len(depth_sets)] if i < 2 * len(depth_sets) else \
             sorted(rq(rng, 0.05, 3, 100) for _ in range(rng.choice([1, 2, 3, 4])))
         droad = rng.choice([F('0.5'), F('0.35'), F('0.05'), F('0.04'), F('0.12'), F('1.0'), F('0.2'),
                             rq(rng, 0.02, 2.5, 100)])
+        if i >= ncol:
+            depths, droad = deep_pick[i - ncol]
+            deep_done[0] += 1
         # pavement material: anything legal, on both sides of the soil values (1 W/m-K, 2e6 J/m3-K), and - as in
         # every shipped file - coinciding with one or both of them
         kroad = [rq(rng, 0.5, 0.9, 10), rq(rng, 1.1, 3, 10), F(1), rq(rng, 0.05, 5, 100)][i % 4]
@@ -323,7 +441,9 @@ def run(chk):
                         'cells of every depth blank, all filled, or partly filled, in rotation; for half of the files '
                         'other header cells varied as well) x pavement thickness (incl. deeper than the deepest '
                         'depth: index unset with one or two ground records, refused - `err refused` on both sides - with '
-                        'three or more): road and rural layer lists and soil index vs Lean columnOutcome, exact '
+                        'three or more); plus files whose first ground record at or below the pavement is DEEP '
+                        '(12.5 / 20 / 25.05 / 26 / 30 / 40 m: columns of 250 .. 800 slices): road and rural layer lists and '
+                        'soil index vs Lean columnOutcome, exact '
                         '(the model takes the depths only: the optional cells are no input)',
                    classify=lambda l, a: 'unset' if 'idx=unset' in a else 'err' if a.startswith('err') else 'padded')
 
@@ -474,5 +594,6 @@ def run(chk):
                'in every property (k = 1, c = 2e6, 0.05 m, Material "soil")', mismatches=bad5, branches=compf)
     chk.assumptions.append('float effects in ceil(droad/0.05) and depth > sum(thickness) are outside the exact '
                            'model (e.g. droad=0.35 gives 8 pavement layers in doubles, 7 exactly)')
+    circumstance_ties(chk, chk.tier == 'quick')
     # the ground-temperature line itself: the real _read_epw vs the Lean reader, for every number of depths
     epwheader.run_header(chk, 'ground')
